@@ -19,7 +19,7 @@ _, bblocks = split(base); bnames = {n: t for n, t in bblocks}
 pre, cblocks = split(cur)
 cnames = [n for n, _ in cblocks]
 def run_parts(text):
-    m = re.search(r"for part in \(([^)]*)\):", text)
+    m = re.search(r"parts = \(([^)]*)\)", text) or re.search(r"for part in \(([^)]*)\):", text)
     return [x.strip() for x in m.group(1).split(",") if x.strip()]
 parts = run_parts(dict(cblocks)["run"])
 for nm in names:
@@ -48,7 +48,10 @@ for nm in names:
 out = pre
 for n, t in cblocks:
     if n == "run":
-        t = re.sub(r"for part in \([^)]*\):", "for part in (" + ", ".join(parts) + "):", t)
+        if re.search(r"parts = \([^)]*\)", t):
+            t = re.sub(r"parts = \([^)]*\)", "parts = (" + ", ".join(parts) + ")", t)
+        else:
+            t = re.sub(r"for part in \([^)]*\):", "for part in (" + ", ".join(parts) + "):", t)
     out += t
 open(cur_path, "w").write(out)
 print("run parts:", parts)
